@@ -15,6 +15,9 @@ ops:  add <w> <x> | flush <w> | wait <w> | tick | rel <first task of batch> ok|p
       unhold <w>                               disarm and release caller w
       hold bg fremoved | unhold bg             the same for the background flusher(s): parked inside the RemoveAll of
                                                the tick / quit Flush
+      hold bg stop                             a flusher that has DECIDED to quit parks in ticker.Stop(): after shallQuit,
+                                               before its deferred Flush (model pc `fEnter quit`); skip while armed for the other point
+      rel <first> ok|panic|epanic|rpanic       the gated callback returns / panics with a string / an error value / a run-time error
       bhold <w>                                caller w takes pe.wgBarrier and parks inside it (skip if it is taken)
       brel wait|flush|none                     that caller releases it and goes straight on with Wait / Flush / nothing
       (a task is the number 8*id + byte size; only the chunk executor looks at the size)
@@ -22,6 +25,7 @@ obs:  [d=0|1] w=<class per caller> fl=<sorted classes of flushers> c=<container>
       g=<guarded> cb=<batches inside the callback> nf=<tasks whose callback ended> [all=<…>]   | skip
       [ends=<callback ends of this line in order> wret=<caller>:<k>,…]   only when a Wait returned in this line: it
                                                returned after the first k of `ends` (monitor only, not compared)
+      [mut=<first tasks>]                      batches that showed other tasks when their gated callback looked again at its end (monitor only)
       | stuck moving=<state@frame,…>           the harness watchdog: no quiescence within its bound
 -/
 import Std.Data.HashSet
@@ -55,6 +59,7 @@ def holdPc (pt : String) (pc : Pc) : Bool :=
   | "notfull", .aGuard false => true
   | "removed", .aGuard true => true
   | "fremoved", .fUnlock _ => true
+  | "stop", .fEnter .quit => true      -- ticker.Stop(): the quitting flusher's first deferred call, before its deferred Flush
   | _, _ => false
 
 abbrev Holds := List (Nat × String)
@@ -63,7 +68,7 @@ abbrev Holds := List (Nat × String)
 def bgHold : Nat := 1000000
 
 def isHeld (holds : Holds) (t : Nat) (pc : Pc) : Bool :=
-  holds.any fun h => (h.1 == t || (h.1 == bgHold && (match pc with | .fUnlock .tick => true | .fUnlock .quit => true | _ => false)))
+  holds.any fun h => (h.1 == t || (h.1 == bgHold && (match pc with | .fUnlock .tick => true | .fUnlock .quit => true | .fEnter .quit => true | _ => false)))
     && holdPc h.2 pc
 
 def inCallback (pc : Pc) : Bool := match pc with | .fCall _ => true | .bCall => true | _ => false
@@ -220,10 +225,13 @@ def applyOp (d : DCfg) (holds : Holds) (bholder : Option Nat) (s : St) : List St
       | some th => inCallback th.pc && th.reg.head? == some x
       | none => false
     if d.auto then none else
-    let s' ← (step d.cfg s t (.cbEnd (how = "panic"))).map normGhost
+    if !(["ok", "panic", "epanic", "rpanic"].contains how) then none else
+    let s' ← (step d.cfg s t (.cbEnd (how != "ok"))).map normGhost
     let (q, ex) := closure (internalSucc d false holds) fuel [s'] [] []
     pure (q, ex, "")
-  | ["hold", "bg", pt] => if pt = "fremoved" then some ([s], false, "") else none
+  | ["hold", "bg", pt] =>
+    -- armed for (maybe parked at) the other hold point: the harness skips
+    if (pt = "fremoved" ∨ pt = "stop") ∧ !(holds.any fun h => h.1 == bgHold && h.2 != pt) then some ([s], false, "") else none
   | ["unhold", "bg"] =>
     let (q, ex) := closure (internalSucc d false holds) fuel [s] [] []
     some (q, ex, "")
@@ -326,7 +334,7 @@ def runLine (d : DCfg) (kind : String) (max : Int) (sec : Nat) (acc : Report × 
     | ["drain"] => none
     | _ => ds.bholder
   -- tokens that carry the event order inside the line are for the monitor only
-  let obsCmp := l.obs.filter fun t => !(t.startsWith "ends=" || t.startsWith "wret=" || t.startsWith "unprot=")
+  let obsCmp := l.obs.filter fun t => !(t.startsWith "ends=" || t.startsWith "wret=" || t.startsWith "unprot=" || t.startsWith "mut=")
   let implCmp := joinSp obsCmp
   -- (a) the monitor, on the implementation's observation alone
   if impl ≠ "skip" then
@@ -350,7 +358,13 @@ def runLine (d : DCfg) (kind : String) (max : Int) (sec : Nat) (acc : Report × 
     for x in parseNats (kvStr l.obs "unprot" "-") do
       r := r.violation sec l.idx s!"the callback of the batch starting with task {x} runs without panic protection (no threading.RunSafe on the stack of Execute): a panicking callback would not lose only its own batch, it would take down the flusher goroutine and the process"
     for msg in msgs do r := r.violation sec l.idx msg
+    -- "passed to the callback exactly once" is about what the callback SEES: a batch that is rewritten while its
+    -- (slow) callback runs shows tasks of a later batch in place of its own
+    for msg in Spec.Mon.mutated (parseNats (kvStr l.obs "mut" "-")) do r := r.violation sec l.idx msg
     ds := { ds with mon := m' }
+    match l.op with
+    | ["rel", _, how] => if how ≠ "ok" ∧ impl ≠ "skip" then r := r.addCover s!"callback-outcome-{how}"
+    | _ => pure ()
     for c in ws do r := r.addCover ("caller-" ++ c)
     for c in (kvStr l.obs "fl" "-").splitOn "," do r := r.addCover ("flusher-" ++ c)
     let cont := parseNats (kvStr l.obs "c" "-")
@@ -396,6 +410,24 @@ def runLine (d : DCfg) (kind : String) (max : Int) (sec : Nat) (acc : Report × 
     if ws.contains "hold" ∧ ws.contains "flock" then r := r.addCover "flush-or-wait-while-caller-holds-lock"
     if ws.contains "hold" ∧ ws.contains "alock" then r := r.addCover "add-while-caller-holds-lock"
     if fls.contains "hold" ∧ ws.contains "alock" then r := r.addCover "add-while-flusher-holds-lock-in-tick-flush"
+    let quitting := ds.holds.any (fun h => h.1 == bgHold ∧ h.2 == "stop") ∧ fls.contains "hold"
+    if quitting then
+      match l.op with
+      | ["add", _, _] =>
+        r := r.addCover "add-while-flusher-has-decided-to-quit-before-its-deferred-Flush"
+        if cont.isEmpty then r := r.addCover "threshold-add-while-flusher-has-decided-to-quit"
+        if fls.length ≥ 2 then r := r.addCover "new-flusher-started-while-old-one-is-quitting"
+      | ["flush", _] => r := r.addCover "flush-while-flusher-has-decided-to-quit"
+      | ["wait", _] => r := r.addCover "wait-while-flusher-has-decided-to-quit"
+      | _ => pure ()
+    if l.op = ["unhold", "bg"] ∧ (ds.holds.any fun h => h.1 == bgHold ∧ h.2 == "stop") ∧ nf.length > 0 then
+      r := r.addCover "quit-time-deferred-Flush-executed-tasks"
+    let cbsNow := if kvStr l.obs "cb" "-" = "-" then 0 else ((kvStr l.obs "cb" "-").splitOn ";").length
+    if cbsNow + (if kvStr l.obs "cmd" "0" = "1" then 1 else 0) + (if ws.contains "send" then 1 else 0) ≥ 2 then
+      match l.op with
+      | ["add", _, _] => r := r.addCover "add-while-two-or-more-batches-are-outstanding"
+      | ["flush", _] => r := r.addCover "flush-while-two-or-more-batches-are-outstanding"
+      | _ => pure ()
     if fls.contains "qlock" ∧ ws.contains "hold" ∧ cont.length > 0 then r := r.addCover "add-slipped-between-empty-tick-flush-and-quit-check"
     -- input class: somebody is parked at the wait-group barrier (before wg.Add) when the barrier is released
     if l.op.head? = some "brel" then
